@@ -71,7 +71,7 @@ TARGET = os.path.join(VERIF, "native", "target")
 BUCKETS = {"vx_cmp": ["src/query/comparison.rs"], "vx_seg": ["src/query/segment.rs"], "vx_sel": ["src/query/selector.rs"],
            "vx_fn": ["src/query/test_function.rs"], "vx_ptr": ["src/query/state.rs"]}
 STD_SHAPES = ["vf_chain_collect", "vf_zip_all", "vf_enumerate_map_collect", "vf_into_map_collect", "vf_iter_map_collect", "vf_flat_map_collect_raw", "vf_iter_any", "vf_iter_all",
-              "vf_enumerate_filter_map_collect_raw", "vf_filter_map_collect_raw", "vf_iter_fold", "vf_map_reduce_or", "vf_chars_count", "vf_str_lt"]
+              "vf_enumerate_filter_map_collect_raw", "vf_filter_map_collect_raw", "vf_iter_fold", "vf_map_reduce_or", "vf_chars_count", "vf_str_lt", "vf_ref_map_flat_map_collect_raw"]
 
 
 def std_shapes_module() -> str:
